@@ -1,4 +1,5 @@
 import NriModel.Lemmas.GenerateLift
+import NriModel.Lemmas.GenerateSpec
 /-!
 Property C13 — applying a container adjustment to an OCI spec changes exactly what it names,
 deterministically.  Theorems about `Nri.Generate.adjust` (the model of `Generator.Adjust`,
@@ -606,6 +607,50 @@ theorem C13_deterministic {bad : List Str}
       cases hres : l.resources with
       | none => simp [hres]
       | some rr => simp [hres]
+
+/-! ## The hypotheses are satisfiable, and the driver's guards imply them -/
+
+/-- The Boolean guard the driver evaluates on an original environment implies `Env.WF`. -/
+theorem C13_env_guard_sound (env : List Str) (h : Check.envWF env = true) : Env.WF env := by
+  unfold Check.envWF at h
+  simp only [Bool.and_eq_true, List.all_eq_true, decide_eq_true_eq] at h
+  refine ⟨?_, h.2⟩
+  intro e he
+  have := h.1 e he
+  cases hs : Env.splitEq e with
+  | none => rw [hs] at this; cases this
+  | some p =>
+    obtain ⟨n, v⟩ := p
+    rw [hs] at this
+    exact ⟨n, v, rfl, by simpa using this⟩
+
+/-- the externals of the correspondence harness satisfy the injector assumption -/
+theorem C13_recording_injector_framed (bad : List Str) (ext : Externals)
+    (h : ext.injectCDI = some (recordingInjector bad)) : ext.CDIFramed := by
+  intro inj hinj; rw [h] at hinj; cases hinj; exact recordingInjector_framed bad
+
+/-- A concrete instance meeting every hypothesis used above at once (non-vacuity): a spec with
+    env, a mount, a device and an annotation; an adjustment that removes and re-sets each. -/
+theorem C13_hypotheses_satisfiable :
+    let ext : Externals := { injectCDI := some (recordingInjector []) }
+    let s : Spec := { annotations := [(str "k", str "old")], env := [str "FOO=old"],
+                      mounts := [{ destination := str "/a/b" }, { destination := str "/a" }],
+                      devices := [{ path := str "/dev/a" }] }
+    let a : Adjustment :=
+      { annotations := [(str "-k", []), (str "k", str "new")],
+        env := [⟨str "-FOO", []⟩, ⟨str "FOO", str "new"⟩],
+        mounts := [{ destination := str "-/a" }, { destination := str "/a", source := str "/src" }],
+        linux := some { devices := [{ path := str "-/dev/a" }, { path := str "/dev/a", major := 5 }] },
+        cdiDevices := [str "v/c=d"] }
+    ext.CDIFramed ∧ (∃ s', adjust ext s a = .ok s') ∧ Env.WF s.env ∧ AList.WF a.annotations ∧
+    NodupKeys Oci.Mount.destination s.mounts ∧ NodupKeys Oci.Device.path s.devices ∧
+    (∀ x ∈ a.env, '=' ∉ stripMarker x.key) ∧
+    LastSet KeyValue.key a.env ⟨str "FOO", str "new"⟩ := by
+  intro ext s a
+  refine ⟨C13_recording_injector_framed [] ext rfl, ⟨_, rfl⟩, C13_env_guard_sound _ (by decide),
+    ?_, by decide, by decide, by decide, by decide, ⟨[⟨str "-FOO", []⟩], [], rfl, by simp⟩⟩
+  show (List.map (·.1) [(str "-k", ([] : Str)), (str "k", str "new")]).Nodup
+  decide
 
 /-! ## The code before the repairs, and why each guard is there (concrete witnesses) -/
 
